@@ -11,7 +11,7 @@ use crate::Ctx;
 use serde_json::json;
 use std::mem::{size_of, MaybeUninit};
 
-const RULE: &str = "for each set x key type {PrivateKey, PublicKey} x provenance {keygen_from_seed, try_keygen_with_rng, try_from_bytes, get_public_key, clone; plus keys imported from degenerate encodings: public keys that are all-zero / all-FF / with rho = 0 / rho = FF, private keys with rho = K = tr = 0 or FF or made of all-zero bytes, the public keys derived from those, and clones; plus keys in which one polynomial of s1 / s2 / t0 / t1 is a constructed in-range multiple of X^16 - r_k (k in {0,1,7,14,15}), so that its in-memory NTT form has one whole 64-byte line of zeros inside dense data, and their clones} x placement {stack slot MaybeUninit<T>, heap Box<MaybeUninit<T>>}: the object is written into storage the harness owns, the fraction of non-zero bytes is measured (must be > 25%: the object really holds key material), ptr::drop_in_place runs the type's Drop, then every one of size_of::<T>() bytes is read with read_volatile and must be 0. Non-trivial = distinct (set, type, provenance, placement, key) objects whose storage was non-zero before and fully inspected after the drop. Copies left behind by earlier moves are out of reach.";
+const RULE: &str = "for each set x key type {PrivateKey, PublicKey} x provenance {keygen_from_seed, try_keygen_with_rng, try_from_bytes, get_public_key, clone; plus keys imported from degenerate encodings: public keys that are all-zero / all-FF / with rho = 0 / rho = FF, private keys with rho = K = tr = 0 or FF or made of all-zero bytes, the public keys derived from those, and clones; plus keys in which one polynomial of s1 / s2 / t0 / t1 is a constructed in-range multiple of X^16 - r_k (k in {0,1,7,14,15}), so that its in-memory NTT form has one whole 64-byte line of zeros inside dense data, and their clones; keys in which one polynomial (or every polynomial) is f(X^(2^j)) for j = 1..8, a monomial, or has constant coefficients, so that the NTT image consists of repeated blocks, and their clones} x placement {stack slot MaybeUninit<T>, heap Box<MaybeUninit<T>>}: the object is written into storage the harness owns, the fraction of non-zero bytes is measured (must be > 25%: the object really holds key material), ptr::drop_in_place runs the type's Drop, then every one of size_of::<T>() bytes is read with read_volatile and must be 0. Non-trivial = distinct (set, type, provenance, placement, key) objects whose storage was non-zero before and fully inspected after the drop. Copies left behind by earlier moves are out of reach.";
 
 pub fn run(ctx: &Ctx) -> StageOut {
     let mut acc = Acc::new();
@@ -193,6 +193,49 @@ fn run_set<S: PS>(ctx: &Ctx) -> Acc {
                         }
                     }
                 }
+            }
+            // keys holding one polynomial with arithmetic structure (f(X^(2^j)), monomials, constant coefficients):
+            // the in-memory NTT image then consists of repeated blocks, something no honest key shows
+            if ki == 0 {
+                use refimpl as r;
+                let parts = r::sk_decode(p, &sk_b);
+                let (rho_pk, t1) = r::pk_decode(p, &pk_b);
+                let mut gz = Prng::derive(ctx.seed, &format!("c16-structured-{}", p.name), u64::from(heap));
+                let top = 1i64 << 12;
+                for (field, lo, hi) in [("s1", -p.eta, p.eta), ("s2", -p.eta, p.eta), ("t0", -top + 1, top), ("t1", 0, 1023)] {
+                    for (pname, poly) in crate::gen::structured_polys(&mut gz, lo, hi) {
+                        let name = format!("try_from_bytes({field} polynomial: {pname})");
+                        if field == "t1" {
+                            let mut t = t1.clone();
+                            t[p.k - 1] = poly;
+                            let bytes = r::pk_encode(&rho_pk, &t);
+                            judge_min(&mut acc, p.name, "PublicKey", &name, heap, &bytes[32..96], guarded(|| probe(|| S::pk_from(&bytes).unwrap(), heap)), 64);
+                            judge_min(&mut acc, p.name, "PublicKey", &format!("clone of {name}"), heap, &bytes[32..96], guarded(|| { let kx = S::pk_from(&bytes).unwrap(); probe(|| kx.clone(), heap) }), 64);
+                        } else {
+                            let (mut s1, mut s2, mut t0) = (parts.s1.clone(), parts.s2.clone(), parts.t0.clone());
+                            match field {
+                                "s1" => s1[0] = poly,
+                                "s2" => s2[p.k - 1] = poly,
+                                _ => t0[0] = poly,
+                            }
+                            let bytes = r::sk_encode(p, &parts.rho, &parts.key, &parts.tr, &s1, &s2, &t0);
+                            judge_min(&mut acc, p.name, "PrivateKey", &name, heap, &bytes[128..192], guarded(|| probe(|| S::sk_from(&bytes).unwrap(), heap)), 64);
+                            judge_min(&mut acc, p.name, "PrivateKey", &format!("clone of {name}"), heap, &bytes[128..192], guarded(|| { let kx = S::sk_from(&bytes).unwrap(); probe(|| kx.clone(), heap) }), 64);
+                        }
+                    }
+                }
+                // a key made ONLY of structured polynomials (every polynomial of every vector)
+                let sp = crate::gen::structured_polys(&mut gz, -p.eta, p.eta);
+                let tp = crate::gen::structured_polys(&mut gz, -top + 1, top);
+                let s1: Vec<r::Poly> = (0..p.l).map(|i| sp[(3 + i) % sp.len()].1).collect();
+                let s2: Vec<r::Poly> = (0..p.k).map(|i| sp[(4 + 2 * i) % sp.len()].1).collect();
+                let t0: Vec<r::Poly> = (0..p.k).map(|i| tp[(3 + i) % tp.len()].1).collect();
+                let bytes = r::sk_encode(p, &parts.rho, &parts.key, &parts.tr, &s1, &s2, &t0);
+                judge_min(&mut acc, p.name, "PrivateKey", "try_from_bytes(every polynomial structured)", heap, &bytes[128..192], guarded(|| probe(|| S::sk_from(&bytes).unwrap(), heap)), 64);
+                let t1s = crate::gen::structured_polys(&mut gz, 0, 1023);
+                let t: Vec<r::Poly> = (0..p.k).map(|i| t1s[(3 + i) % t1s.len()].1).collect();
+                let bytes = r::pk_encode(&rho_pk, &t);
+                judge_min(&mut acc, p.name, "PublicKey", "try_from_bytes(every t1 polynomial structured)", heap, &bytes[32..96], guarded(|| probe(|| S::pk_from(&bytes).unwrap(), heap)), 64);
             }
             // the pair as returned by key generation, dropped as a tuple
             judge(&mut acc, p.name, "(PublicKey,PrivateKey)", "keygen_from_seed", heap, &xi, guarded(|| probe(|| S::keygen_seed(&xi), heap)));
